@@ -289,6 +289,20 @@ func c16OtherOps(c *core.Ctx) {
 		ok   func(shape []int) bool
 		run  func(d *tensor.Dense) (tensor.Tensor, error)
 		run2 func(d, e *tensor.Dense) (tensor.Tensor, error) // operations on two operands of one layout
+		// ref, when set, is what the row-major reference runs instead of run (an operation with a column-major destination is
+		// compared with the same operation into a row-major destination, not with itself)
+		ref func(d *tensor.Dense) (tensor.Tensor, error)
+	}
+	repeatInto := func(fortran bool, axis int) func(d *tensor.Dense) (tensor.Tensor, error) {
+		return func(d *tensor.Dense) (tensor.Tensor, error) {
+			sh := d.Shape().Clone()
+			sh[axis] *= 2
+			opts := []tensor.ConsOpt{tensor.Of(d.Dtype()), tensor.WithShape(sh...)}
+			if fortran {
+				opts = append(opts, tensor.AsFortran(nil))
+			}
+			return tensor.RepeatReuse(d, tensor.New(opts...), axis, 2)
+		}
 	}
 	idx := func() *tensor.Dense { return tensor.New(tensor.WithShape(2), tensor.WithBacking([]int{1, 0})) }
 	ops := []op{
@@ -302,12 +316,8 @@ func c16OtherOps(c *core.Ctx) {
 		{name: "Norm(1,axis0)", ok: func(s []int) bool { return len(s) >= 2 }, run: func(d *tensor.Dense) (tensor.Tensor, error) { return d.Norm(tensor.Norm(1), 0) }},
 		{name: "Norm(fro)", ok: func(s []int) bool { return len(s) == 2 }, run: func(d *tensor.Dense) (tensor.Tensor, error) { return d.Norm(tensor.FrobeniusNorm()) }},
 		{name: "Narrow", ok: func(s []int) bool { return len(s) >= 2 }, run: func(d *tensor.Dense) (tensor.Tensor, error) { return tensor.Narrow(d, 1, 1, 2) }},
-		{name: "RepeatReuse(dest F)", ok: func(s []int) bool { return len(s) == 2 }, run: func(d *tensor.Dense) (tensor.Tensor, error) {
-			sh := d.Shape().Clone()
-			sh[0] *= 2
-			r := tensor.New(tensor.Of(d.Dtype()), tensor.WithShape(sh...), tensor.AsFortran(nil))
-			return tensor.RepeatReuse(d, r, 0, 2)
-		}},
+		{name: "RepeatReuse(0, dest F)", ok: func(s []int) bool { return len(s) >= 2 }, run: repeatInto(true, 0), ref: repeatInto(false, 0)},
+		{name: "RepeatReuse(1, dest F)", ok: func(s []int) bool { return len(s) >= 2 }, run: repeatInto(true, 1), ref: repeatInto(false, 1)},
 		{name: "SoftMaxB(0)", ok: func(s []int) bool { return len(s) >= 2 }, run2: func(d, e *tensor.Dense) (tensor.Tensor, error) { return tensor.SoftMaxB(d, e, 0) }},
 		{name: "SoftMaxB(last)", ok: func(s []int) bool { return len(s) >= 2 }, run2: func(d, e *tensor.Dense) (tensor.Tensor, error) { return tensor.SoftMaxB(d, e, d.Dims()-1) }},
 		{name: "LogSoftMaxB(0)", ok: func(s []int) bool { return len(s) >= 2 }, run2: func(d, e *tensor.Dense) (tensor.Tensor, error) { return tensor.LogSoftMaxB(d, e, 0) }},
@@ -350,12 +360,8 @@ func c16OtherOps(c *core.Ctx) {
 			}
 			return tensor.Outer(a, b)
 		}},
-		{name: "RepeatReuse(dest C)", ok: func(s []int) bool { return len(s) == 2 }, run: func(d *tensor.Dense) (tensor.Tensor, error) {
-			sh := d.Shape().Clone()
-			sh[0] *= 2
-			r := tensor.New(tensor.Of(d.Dtype()), tensor.WithShape(sh...))
-			return tensor.RepeatReuse(d, r, 0, 2)
-		}},
+		{name: "RepeatReuse(0, dest C)", ok: func(s []int) bool { return len(s) >= 2 }, run: repeatInto(false, 0)},
+		{name: "RepeatReuse(1, dest C)", ok: func(s []int) bool { return len(s) >= 2 }, run: repeatInto(false, 1)},
 	}
 	for _, t := range []reflect.Type{model.TF64, model.TF32} {
 		tol := 1e-12
@@ -386,7 +392,13 @@ func c16OtherOps(c *core.Ctx) {
 					}
 					return o.run(d)
 				}
-				wp, _ := core.Catch(func() { want, werr = call(ref.op.D, ref2.op.D) })
+				wp, _ := core.Catch(func() {
+					if o.ref != nil {
+						want, werr = o.ref(ref.op.D)
+					} else {
+						want, werr = call(ref.op.D, ref2.op.D)
+					}
+				})
 				if wp || werr != nil {
 					continue // the operation does not serve this shape at all
 				}
@@ -394,7 +406,11 @@ func c16OtherOps(c *core.Ctx) {
 				if e != nil {
 					continue
 				}
-				for _, lay := range []string{gen.LF, gen.LFconv, gen.LFT, gen.LFS} {
+				lays := []string{gen.LF, gen.LFconv, gen.LFT, gen.LFS}
+				if o.ref != nil {
+					lays = append(lays, gen.LC) // a row-major operand into the column-major destination
+				}
+				for _, lay := range lays {
 					x, px := ewBuild(c, t, shape, lay, vals, nil, nil)
 					if px != "" || x.op.Layout != lay {
 						continue
